@@ -119,6 +119,12 @@ pub struct Case {
     /// instead of whole numbers, as after tf-idf or length normalisation
     #[serde(default)]
     pub fractional: bool,
+    /// FTRL: once a model exists, `fit_with` is called through a parameter object whose
+    /// hyper-parameters differ from the ones the model was created with (a decayed learning
+    /// rate, a restored model continued with other settings).  The model's own stored
+    /// hyper-parameters govern its recurrence - that is what `update` and `predict` use.
+    #[serde(default)]
+    pub decoy_params: bool,
     /// number of rows in one `predict` call (0 = the default dozen); above a thousand the
     /// call spans any internal block size
     #[serde(default)]
@@ -1168,13 +1174,10 @@ fn sigmoid(v: f64) -> f64 {
 impl<F: Fl> Sut for FtrlSut<F> {
     type Model = FtrlModel<F>;
     fn apply(&self, c: &Case, d: &Data, m: Option<FtrlModel<F>>, pending: &mut BTreeMap<usize, Vec<f32>>, op: &Op, out: &mut Out) -> Result<Option<FtrlModel<F>>, String> {
-        let params = Ftrl::<F>::params_with_rng(Xoshiro256Plus::seed_from_u64(c.data_seed))
-            .alpha(F::of64(c.hyper.ftrl_alpha))
-            .beta(F::of64(c.hyper.ftrl_beta))
-            .l1_ratio(F::of64(c.hyper.ftrl_l1))
-            .l2_ratio(F::of64(c.hyper.ftrl_l2))
-            .check()
-            .map_err(|e| e.to_string())?;
+        let decoy = c.decoy_params && m.is_some() && matches!(op, Op::Fit(_));
+        let flip = |v: f64| if v > 0.5 { v - 0.35 } else { v + 0.35 };
+        let (al, be, l1, l2) = if decoy { (c.hyper.ftrl_alpha * 2.5, c.hyper.ftrl_beta + 0.7, flip(c.hyper.ftrl_l1), flip(c.hyper.ftrl_l2)) } else { (c.hyper.ftrl_alpha, c.hyper.ftrl_beta, c.hyper.ftrl_l1, c.hyper.ftrl_l2) };
+        let params = Ftrl::<F>::params_with_rng(Xoshiro256Plus::seed_from_u64(c.data_seed)).alpha(F::of64(al)).beta(F::of64(be)).l1_ratio(F::of64(l1)).l2_ratio(F::of64(l2)).check().map_err(|e| e.to_string())?;
         let jb = match *op {
             Op::Fit(j) | Op::Predict(j) | Op::Update(j) => j,
         };
@@ -1492,6 +1495,7 @@ pub fn gen_case(r: &mut Prng, learner: Learner, big: bool) -> Case {
             0.0
         },
         fractional: learner == Learner::Mnb && r.chance(0.3),
+        decoy_params: learner == Learner::Ftrl && r.chance(0.25),
         nq: if r.chance(0.08) { r.usize_in(1025, 2300) } else { 0 },
     }
     .with_precision(r, learner)
@@ -1621,6 +1625,11 @@ fn shrink_candidates(c: &Case) -> Vec<Case> {
     if c.fractional {
         let mut d = c.clone();
         d.fractional = false;
+        v.push(d);
+    }
+    if c.decoy_params {
+        let mut d = c.clone();
+        d.decoy_params = false;
         v.push(d);
     }
     if c.x_scale != 0.0 {
